@@ -52,14 +52,31 @@ def make_bases():
             {"cid": 4, "fam": 7, "kind": "code", "src": 0, "outs": 3, "md": 0, "ec": 1, "att": 0},
             # never executed: execution counts are null
             {"cid": 5, "fam": 5, "kind": "code", "src": 0, "outs": 2, "md": 0, "ec": 0, "att": 0}]}
-        out.append(concretize.concrete(ab))
+        nb = concretize.concrete(ab)
+        # a cell whose two outputs are equal up to their execution counts, and two cells with the same source whose
+        # outputs differ: content that can only be aligned by what an ignore option may hide
+        ex = lambda n: {"output_type": "execute_result", "execution_count": n, "metadata": {}, "data": {"text/plain": "5"}}  # noqa
+        st = lambda t: {"output_type": "stream", "name": "stdout", "text": t}  # noqa
+        extra = [{"cell_type": "code", "metadata": {}, "execution_count": 2, "source": "five = 5\nfive", "outputs": [ex(1), ex(2)]},
+                 {"cell_type": "code", "metadata": {}, "execution_count": 3, "source": "step()", "outputs": [st("state 1\n")]},
+                 {"cell_type": "code", "metadata": {}, "execution_count": 4, "source": "step()", "outputs": [st("state 2\n")]}]
+        for j, c in enumerate(extra):
+            if minor >= 5:
+                c["id"] = "extra-%d" % j
+            nb.cells.append(nbformat.from_dict(c))
+        assert concretize.is_valid(nb)
+        out.append(nb)
     return out
 
 
-def vary(nb, differing, variant):
-    """a copy of nb that differs from it in exactly the given categories"""
+def vary(nb, differing, variant, ignored=()):
+    """a copy of nb that differs from it in exactly the given categories (ignored: the categories that will be ignored -
+    the variations that only make sense for ignored content, such as two cells exchanging their ids, are made only then)"""
     b = copy.deepcopy(nb)
-    code = [c for c in b.cells if c.cell_type == "code"]
+    vary.tags = []
+    code = [c for c in b.cells if c.cell_type == "code" and not c.source.startswith(("five", "step"))]
+    five = [c for c in b.cells if c.source.startswith("five")][0]
+    steps = [c for c in b.cells if c.source.startswith("step")]
     md = [c for c in b.cells if c.cell_type == "markdown"]
     if "sources" in differing:
         c = b.cells[variant % len(b.cells)]
@@ -77,6 +94,11 @@ def vary(nb, differing, variant):
             o.evalue = o.evalue + "!"
         if variant % 2:
             code[(variant + 1) % len(code)].outputs.append(nbformat.v4.new_output("stream", name="stdout", text="extra\n"))
+        if variant % 4 == 3 and "outputs" in ignored:
+            # the two cells with the same source were run once more: each now shows what the next run printed
+            steps[0].outputs[0].text = "state 2\n"
+            steps[1].outputs[0].text = "state 3\n"
+            vary.tags.append("equal-sources-outputs-shifted" + ("" if b.nbformat_minor >= 5 else "-idless"))
     if "attachments" in differing:
         a = md[0].setdefault("attachments", {}) if b.nbformat_minor >= 1 else None
         if a is not None:
@@ -104,7 +126,11 @@ def vary(nb, differing, variant):
                     if "metadata" in o:
                         o.metadata["isolated"] = "flip"
     if "id" in differing and b.nbformat_minor >= 5:
-        b.cells[variant % len(b.cells)]["id"] = "renamed-%d" % variant
+        if variant % 3 == 1 and "id" in ignored:
+            i, j = variant % len(b.cells), (variant + 2) % len(b.cells)        # two cells exchange their ids
+            b.cells[i]["id"], b.cells[j]["id"] = b.cells[j]["id"], b.cells[i]["id"]
+        else:
+            b.cells[variant % len(b.cells)]["id"] = "renamed-%d" % variant
     if "details" in differing:
         c = code[variant % len(code)]
         cleared = variant % 3 == 1 and c.execution_count is not None        # int -> null (outputs cleared and re-run state lost)
@@ -113,6 +139,11 @@ def vary(nb, differing, variant):
             for o in c.outputs:
                 if o.output_type == "execute_result":
                     o.execution_count = None if (cleared and o.execution_count is not None) else (o.execution_count or 0) + 10
+        if variant % 3 == 2 and "details" in ignored:
+            # re-run: the counts of the two equal outputs shift by one (the first now carries the count the second had)
+            five.execution_count += 1
+            for o in five.outputs:
+                o.execution_count += 1
     return b
 
 
@@ -178,11 +209,12 @@ def evaluate(task):
         differing = [c for c in case["differing"] if isinstance(case["differing"], list)]
         if a.nbformat_minor < 5 and "id" in differing:
             a = BASES[0]
-        b = vary(a, differing, k)
+        b = vary(a, differing, k, ignored)
         extra = {"ign": ignored, "expectEmpty": bool(case["expectEmpty"])}
         ev, dd = diff_event("m%d" % k, a, b, diff_notebooks, patch_notebook, snapshot=False, extra=extra)
         ev["_nonempty_expected"] = bool(case["expectNonEmpty"]) and dd is not None and len(dd) == 0 and a != b
         ev["_valid"] = concretize.is_valid(b)
+        ev["_tags"] = list(vary.tags)
         return ev
     finally:
         os.chdir(old_cwd)
@@ -222,7 +254,9 @@ def run():
         events = pool.map(evaluate, [(k, c, root) for k, c in enumerate(cases)], chunksize=1)
     bad = 0
     missed = []
+    tags = {}
     for ev, c in zip(events, cases):
+        tags[ev["tid"]] = ev.pop("_tags", [])
         if not ev.pop("_valid"):
             bad += 1
         if ev.pop("_nonempty_expected"):
@@ -237,6 +271,16 @@ def run():
         cl = [x for x in clauses if x in CLAUSES]
         for x in cl:
             cats = sorted(set(c["ignored"]) & set(c["differing"]))
+            d = byid[tid].get("d") or []
+            whole_cells = (len(d) == 1 and d[0].get("op") == "patch" and d[0].get("key") == "cells"
+                           and any(e.get("op") in ("addrange", "removerange") for e in d[0].get("diff", [])))
+            shifted = [t for t in tags[tid] if t.startswith("equal-sources-outputs-shifted")]
+            if (x == "IgnoredOnlyEmpty" and shifted and "outputs" in c["ignored"] and whole_cells
+                    and (shifted[0].endswith("-idless") or "id" in c["ignored"])):
+                chk.violation("ignore:alignment-by-ignored-outputs:cells-with-equal-source-not-identified-by-id",
+                              "outputs ignored, yet cells with equal sources (and no ids, or ignored ids) are aligned by their "
+                              "outputs: whole cells are reported removed / inserted (channel %s)" % c["channel"], {"case": c, "diff": d})
+                continue
             chk.violation("ignore:%s:%s:%s" % (x, c["channel"], ",".join(cats) or "-"),
                           "clause %s false with ignored=%s differing=%s channel=%s" % (x, c["ignored"], c["differing"], c["channel"]),
                           {"case": c, "failed": clauses, "a": common.json.loads(common.json.dumps(to_plain(BASES[0])))[:0] if False else None,
